@@ -7,5 +7,6 @@ int main(int argc, char **argv) {
     RUN("async_programs", 1, true, scn::async_programs(o, R, o.cases));
     RUN("async_start_race", 2, true, scn::async_start_race(o, R, T, o.cases));
     RUN("frame_owned_parties", 1, true, scn::frame_owned_parties(o, R, o.cases));
+    RUN("async_reference_results", 1, true, scn::async_reference_results(o, R, o.cases));
     return 0;
 }
